@@ -759,6 +759,15 @@ pub fn decode_case(out: &mut Out, rng: &mut Rng, bytes: &[u8]) {
 		out.fail("msgpack_slice_prefix_of_reader", "", format!("complete documents differ: {}", describe()));
 	}
 
+	// a second translation of the output changes nothing (msgpack_fixed_point_any_input)
+	if s.ok() {
+		out.eval("m2m_idempotent", &hex(bytes), sn > 0);
+		let again = translate(&s.output, &Supply::Slice, Some(Fmt::Msgpack), Fmt::Msgpack);
+		if !again.ok() || again.output != s.output {
+			out.fail("m2m_idempotent", "", format!("input {}: first translation wrote {}, translating that again gave {}", hex(bytes), hex(&s.output), again.describe()));
+		}
+	}
+
 	// document count seen through the JSON rendering: one line per document
 	let j = translate(bytes, &Supply::Slice, Some(Fmt::Msgpack), Fmt::Json);
 	let lines = j.output.iter().filter(|b| **b == b'\n').count();
